@@ -1,5 +1,4 @@
 package main
 
-func (r *Run) DoBatch(b *BatchSpec)        {}
-func (r *Run) DoCrash(c Cmd, f Fault)      {}
-func (r *Run) Drain()                      {}
+func (r *Run) DoBatch(b *BatchSpec) {}
+func (r *Run) Drain()               {}
